@@ -100,10 +100,42 @@ def canonServices : Services → Except String Services
     | .ext (.str ref), .ok r' => .ok ((n, .ext (.map (.str ref) .absent)) :: r')
     | s, .ok r' => .ok ((n, s) :: r')
 
+/-- `absExtendsPath` (run by `paths.ResolveRelativePaths` on the loaded file) asserts `value.(string)` -/
+def hasNonStringFile (svcs : Services) : Bool :=
+  svcs.any (fun p => match p.2 with | .ext (.map _ .other) => true | _ => false)
+
+/--
+Where an `extends` value points (the part of `applyServiceExtends` before `tracker.Add`, including
+`getExtendsBaseFromFile`): the referenced service, the file name handed to the tracker, and the services map
+in which the recursion continues (`none` = the current one).  `main` is the file name found in the context
+(always the file being loaded at top level).
+-/
+def locate (fs : FS) (main : String) (svcs : Services) (e : ExtVal) : Except Res (String × String × Option Services) :=
+  match parse e with
+  | .error c => .error (.err c)
+  | .ok (ref, none) =>
+    match lookup ref svcs with
+    | none => .error (.err "notFound")
+    | some _ => .ok (ref, main, none)
+  | .ok (ref, some f) =>
+    match lookup f fs with
+    | none => .error (.err "fileNotFound")
+    | some .noServices => .error (.err "noServices")
+    | some .servicesNotMap => .error (.err "servicesNotMap")
+    | some (.services raw) =>
+      match canonServices raw with
+      | .error c => .error (.err c)
+      | .ok other =>
+        match lookup ref other with
+        | none => .error (.err "notFoundInFile")
+        | some _ =>
+          if hasNonStringFile other then .error (.panic "paths.absExtendsPath:value.(string)")
+          else .ok (ref, f, some other)
+
 /--
 `applyServiceExtends(name, services, tracker)`.  Returns the outcome, whether the result is `nil`
-(`base == nil` short-cut) and the services map of this level after the `services[name] = merged` memo.
-`main` is the file name found in the context (always the file being loaded at top level).
+(`base == nil` short-cut) and the services map of this level after the `services[name] = merged` memo
+(when the base comes from another file, the memo goes to the caller's map and the loaded map is dropped).
 -/
 def resolve (fs : FS) (main : String) : Nat → Services → String → Tracker → Res × Bool × Services
   | 0, svcs, _, _ => (.outOfFuel, false, svcs)
@@ -114,42 +146,16 @@ def resolve (fs : FS) (main : String) : Nat → Services → String → Tracker 
     | some .notMap => (.err "serviceNotMapping", false, svcs)
     | some .plain => (.ok, false, svcs)
     | some (.ext e) =>
-      match parse e with
-      | .error c => (.err c, false, svcs)
-      | .ok (ref, none) =>
-        match lookup ref svcs with
-        | none => (.err "notFound", false, svcs)
-        | some _ =>
-          match tr.add ⟨main, name⟩ with
-          | none => (.err "circular", false, svcs)
-          | some tr' =>
-            match resolve fs main fuel svcs ref tr' with
-            | (.ok, true, svcs') => (.ok, false, svcs')                      -- `base == nil`: returned as is, no memo
-            | (.ok, false, svcs') => (.ok, false, setKey name .plain svcs')  -- merged, `extends` deleted, memoised
-            | (r, _, svcs') => (r, false, svcs')
-      | .ok (ref, some f) =>
-        match lookup f fs with
-        | none => (.err "fileNotFound", false, svcs)
-        | some .noServices => (.err "noServices", false, svcs)
-        | some .servicesNotMap => (.err "servicesNotMap", false, svcs)
-        | some (.services raw) =>
-          match canonServices raw with
-          | .error c => (.err c, false, svcs)
-          | .ok other =>
-          match lookup ref other with
-          | none => (.err "notFoundInFile", false, svcs)
-          | some _ =>
-            -- `paths.ResolveRelativePaths` on the loaded file: `absExtendsPath` asserts `value.(string)`
-            if other.any (fun p => match p.2 with | .ext (.map _ .other) => true | _ => false) then
-              (.panic "paths.absExtendsPath:value.(string)", false, svcs)
-            else
-            match tr.add ⟨f, name⟩ with
-            | none => (.err "circular", false, svcs)
-            | some tr' =>
-              match resolve fs main fuel other ref tr' with
-              | (.ok, true, _) => (.ok, false, svcs)
-              | (.ok, false, _) => (.ok, false, setKey name .plain svcs)     -- memo goes to the *caller's* map
-              | (r, _, _) => (r, false, svcs)
+      match locate fs main svcs e with
+      | .error r => (r, false, svcs)
+      | .ok (ref, file, target) =>
+        match tr.add ⟨file, name⟩ with
+        | none => (.err "circular", false, svcs)
+        | some tr' =>
+          match resolve fs main fuel (target.getD svcs) ref tr' with
+          | (.ok, true, svcs') => (.ok, false, if target.isSome then svcs else svcs')   -- `base == nil`: returned as is, no memo
+          | (.ok, false, svcs') => (.ok, false, setKey name .plain (if target.isSome then svcs else svcs'))
+          | (r, _, svcs') => (r, false, if target.isSome then svcs else svcs')
 
 /-- `ApplyExtends`: every service of the main file, in the order the Go map happens to be ranged -/
 def applyExtends (fs : FS) (main : String) (fuel : Nat) : List String → Services → Res
